@@ -72,6 +72,15 @@ class _Skip(Exception):
     pass
 
 
+def _vol_list_written_bare(nd: tg.Node, x: t.Any, d: t.Any) -> bool:
+    """A value-or-list at the root whose *list* variant is written as something that is not a list: nothing ambiguous about the
+    type, the serialiser dropped the list (a list of one written as its bare element)."""
+    if not isinstance(nd, tg.Vol):
+        return False
+    from pane.types import ValueOrList
+    return isinstance(x, ValueOrList) and not x._is_val and not tg.is_seq(d)
+
+
 def fixed_point_problem(nd: tg.Node, v: t.Any, native: bool) -> t.Optional[t.Tuple[str, str]]:
     import pane
     T = nd.pytype()
@@ -98,7 +107,7 @@ def fixed_point_problem(nd: tg.Node, v: t.Any, native: bool) -> t.Optional[t.Tup
         (rd, trace_d) = tg.ref_traced(nd, d)
         if isinstance(rd, tg.Unspec):
             raise _Skip('own serialised form lands in an unspecified cell')
-        if trace_v != trace_d:
+        if trace_v != trace_d and not _vol_list_written_bare(nd, x, d):
             raise _Skip('ambiguous-union')
     call = f"T = {nd.render()[:300]}; x = {how} = {short(x, 150)}"
     (k, y) = outcome(lambda: pane.convert(x, T))
